@@ -227,3 +227,21 @@ Proof.
   repeat split; try (vm_compute; reflexivity).
   repeat constructor; try discriminate; try (intros _; eexists; reflexivity); intros E; discriminate.
 Qed.
+
+(* ... and the hypothesis of C12_incremental_is_full holds there: the entries of records 1, 2 and 4, which are
+   not re-evaluated, are what an evaluation would give *)
+Example C12_example_clean_valid :
+  clean_valid ex_kinds [3] [(1, [2; 3]); (2, [4]); (3, [3])] ex_src
+    [(2, [AInt 1; AStr [98]]); (3, [AInt 1; AStr [97]]); (4, [AInt 1; AStr []])].
+Proof.
+  intros r [<-|[<-|[<-|[<-|[]]]]] Hd; try discriminate Hd; unfold hspec; vm_compute row_keys;
+    cbn [entry fst snd Z.eqb Pos.eqb].
+  - split.
+    + intros k [<-|[<-|[]]]; [exists 3|exists 2]; (split; [simpl; tauto|vm_compute; reflexivity]).
+    + intros i [<-|[<-|[]]]; [exists [AInt 1; AStr [98]]|exists [AInt 1; AStr [97]]];
+        (split; [simpl; tauto|vm_compute; reflexivity]).
+  - split.
+    + intros k [<-|[]]. exists 4. split; [simpl; tauto|vm_compute; reflexivity].
+    + intros i [<-|[]]. exists [AInt 1; AStr []]. split; [simpl; tauto|vm_compute; reflexivity].
+  - split; [intros k []|intros i []].
+Qed.
